@@ -102,6 +102,14 @@ Definition emit (c a b d e : Z) (s : dstate) : dstate :=
      unsc_calls := unsc_calls s; sol_space := sol_space s; sol_ok := sol_ok s; frame := frame s;
      trace := (c, a, b, d, e) :: trace s |}.
 
+(* conditional record: the condition sits inside the field so that projections of the result always reduce *)
+Definition emit_if (cnd : bool) (c a b d e : Z) (s : dstate) : dstate :=
+  {| simp_on := simp_on s; scaler_on := scaler_on s; loaded := loaded s; scaled := scaled s; sol_scaled := sol_scaled s;
+     intl := intl s; has_basis := has_basis s; status := status s; has_sol := has_sol s; has_ray := has_ray s;
+     has_farkas := has_farkas s; apply_pol := apply_pol s; objlim_en := objlim_en s; opt_calls := opt_calls s;
+     unsc_calls := unsc_calls s; sol_space := sol_space s; sol_ok := sol_ok s; frame := frame s;
+     trace := if cnd then (c, a, b, d, e) :: trace s else trace s |}.
+
 (* field updates (records are rebuilt explicitly so that the file needs no library beyond the standard one) *)
 Definition set_tools (sm sc : bool) (s : dstate) : dstate :=
   {| simp_on := sm; scaler_on := sc; loaded := loaded s; scaled := scaled s; sol_scaled := sol_scaled s;
@@ -163,6 +171,15 @@ Definition unscale_lp (s : dstate) : dstate :=
   let s := set_lp (loaded s) false (if loaded s then false else sol_scaled s) (intl s) s in
   set_counts (opt_calls s) (unsc_calls s + 1) (frame s) s.
 
+Definition load_real_if (cnd init : bool) (s : dstate) : dstate :=
+  let s := emit_if cnd 35 (zb init) 0 0 0 s in
+  set_lp (if cnd then true else loaded s) (scaled s) (if cnd then scaled s else sol_scaled s) (if cnd then false else intl s) s.
+
+Definition unscale_lp_if (cnd : bool) (s : dstate) : dstate :=
+  let s := set_lp (loaded s) (if cnd then false else scaled s)
+                  (if cnd then (if loaded s then false else sol_scaled s) else sol_scaled s) (intl s) s in
+  set_counts (opt_calls s) (if cnd then unsc_calls s + 1 else unsc_calls s) (frame s) s.
+
 Definition any_viol (v : bool * bool * bool * bool) : bool :=
   match v with (a, b, c, d) => a || b || c || d end.
 
@@ -172,8 +189,7 @@ Definition verify_sol (o : orec) (s : dstate) : res :=
     let s := emit 40 (zb b1) (zb b2) (zb b3) (zb b4) s in
     if any_viol (o_vbits o) then
       let s := emit 41 (zb (scaled s)) 0 0 0 s in
-      let s := if scaled s then unscale_lp s else s in
-      rec false s
+      rec false (unscale_lp_if (scaled s) s)
     else Done (set_sol (has_sol s) (has_ray s) (has_farkas s) (sol_space s) true s)
   end.
 
@@ -182,9 +198,9 @@ Definition verify_obj (o : orec) (s : dstate) : res :=
   match o_vbits o with (_, _, b3, b4) =>
     let s := emit 42 (zb (o_dualfeas o)) (zb b3) (zb b4) (zb (scaled s)) s in
     if negb (o_dualfeas o) || b3 || b4 then
-      let s := if negb (scaler_on s) && negb (simp_on s) then set_flags (apply_pol s) false (emit 43 0 0 0 0 s)
-               else if scaled s then unscale_lp s else s in
-      rec false s
+      let tog := negb (scaler_on s) && negb (simp_on s) in
+      let s := set_flags (apply_pol s) (if tog then false else objlim_en s) (emit_if tog 43 0 0 0 0 s) in
+      rec false (unscale_lp_if (negb tog && scaled s) s)
     else Done s
   end.
 
@@ -200,16 +216,16 @@ Definition store (o : orec) (verify : bool) (s : dstate) : res :=
   let s := set_basis true (set_sol true ray far sp0 false s) in
   (* internal unscaling *)
   let do_int := sol_scaled s && negb (loaded s) in
-  let s := if do_int then emit 34 0 0 0 0 s else s in
-  let sp1 := if do_int then {| l_simp := l_simp sp0; l_int := false; l_pers := l_pers sp0 |} else sp0 in
+  let s := emit_if do_int 34 0 0 0 0 s in
+  let sp1 := {| l_simp := l_simp sp0; l_int := if do_int then false else l_int sp0; l_pers := l_pers sp0 |} in
   if simp_on s && o_throw o then
     rec false (set_basis false (emit 32 0 0 0 0 (set_sol true ray far sp1 false s)))
   else
-    let sp2 := if simp_on s then {| l_simp := false; l_int := l_int sp1; l_pers := l_pers sp1 |} else sp1 in
-    let s := if simp_on s || negb (loaded s) then load_real false s else s in
+    let sp2 := {| l_simp := false; l_int := l_int sp1; l_pers := l_pers sp1 |} in
+    let s := load_real_if (simp_on s || negb (loaded s)) false s in
     let s := emit 33 (zb (loaded s)) (zb (scaled s)) (zb (has_basis s)) 0 s in
-    let s := if scaled s then emit 34 1 0 0 0 s else s in
-    let sp3 := if scaled s then {| l_simp := l_simp sp2; l_int := l_int sp2; l_pers := false |} else sp2 in
+    let s := emit_if (scaled s) 34 1 0 0 0 s in
+    let sp3 := {| l_simp := l_simp sp2; l_int := l_int sp2; l_pers := false |} in
     let s := set_sol true ray far sp3 direct s in
     if verify then
       match status s with ABORT_VALUE => verify_obj o s | _ => verify_sol o s end
@@ -221,14 +237,14 @@ Definition store_from_presol (o : orec) (s : dstate) : res :=
   let s := load_real true s in
   if o_throw o then rec false (emit 61 0 0 0 0 s)
   else
-    let s := if scaled s then emit 34 1 0 0 0 s else s in
+    let s := emit_if (scaled s) 34 1 0 0 0 s in
     let s := set_basis true (set_sol true (has_ray s) (has_farkas s) user_space false s) in
     verify_sol o s.
 
 (* _resolveWithoutPreprocessing *)
 Definition resolve (o : orec) (s : dstate) : res :=
   let s := emit 50 (zb (simp_on s)) (zb (scaler_on s)) 0 0 s in
-  let s := if simp_on s then set_basis (o_resbasis o) s else if scaler_on s then set_basis true s else s in
+  let s := set_basis (if simp_on s then o_resbasis o else if scaler_on s then true else has_basis s) s in
   let s := emit 51 (zb (has_basis s)) 0 0 0 s in
   rec false s.
 
@@ -268,29 +284,36 @@ Definition evaluate (o : orec) (sres : simp) (en : bool) (s : dstate) : res :=
     end
   end.
 
-(* _preprocessAndSolveReal(applySimplifier) *)
-Definition pas_body (apply : bool) (s : dstate) : res :=
-  let o := orc (frame s) in
+(* _preprocessAndSolveReal(applySimplifier), up to the call of _evaluateSolutionReal: a straight-line state update.
+   [o] = the oracle record of this call. *)
+Definition is_okay (r : simp) : bool := match r with S_OKAY => true | _ => false end.
+
+Definition pas_sres (apply : bool) (o : orec) : simp := if apply && p_simp P then o_simp o else S_OKAY.
+
+Definition pas_setup (apply : bool) (o : orec) (s : dstate) : dstate :=
   let s := emit 10 (zb apply) (zb (loaded s)) (zb (scaled s)) (zb (has_basis s)) s in
   let s := set_counts (opt_calls s) (unsc_calls s) (S (frame s)) s in
   let s := set_flags false (objlim_en s) s in
   (* _enableSimplifierAndScaler / _disableSimplifierAndScaler *)
-  let s := if apply then set_tools (p_simp P) (p_scaler P) s
-           else set_tools false (if scaled s then scaler_on s else false) s in
+  let s := set_tools (apply && p_simp P)
+                     (if apply then p_scaler P else if scaled s then scaler_on s else false) s in
   let copyLP := simp_on s || (scaler_on s && negb (scaled s)) in
-  let en := objlim_en s in
-  let s := emit 11 (zb (simp_on s)) (zb (scaler_on s)) (zb copyLP) (zb en) s in
+  let s := emit 11 (zb (simp_on s)) (zb (scaler_on s)) (zb copyLP) (zb (objlim_en s)) s in
   let s := set_flags (apply_pol s) true s in
   (* afterwards the solver holds _realLP itself (loaded) or a copy of it *)
   let s := set_lp (negb copyLP) (scaled s) (scaled s) false s in
-  let sres := if simp_on s then o_simp o else S_OKAY in
-  let s := if simp_on s then set_flags true (objlim_en s) (set_lp (loaded s) (scaled s) false false (emit 12 (simp_code sres) 0 0 0 s)) else s in
-  match sres with
-  | S_OKAY =>
-    let s := if scaler_on s && negb (sol_scaled s) then set_lp (loaded s) (scaled s) (o_scaled o) (o_scaled o) s else s in
-    evaluate o sres en (emit 14 (zb (sol_scaled s)) (zb (loaded s)) 0 0 s)
-  | _ => evaluate o sres en s
-  end.
+  let sres := pas_sres apply o in
+  let s := emit_if (simp_on s) 12 (simp_code sres) 0 0 0 s in
+  let s := set_lp (loaded s) (scaled s) (if simp_on s then false else sol_scaled s) (intl s) s in
+  let s := set_flags (simp_on s) (objlim_en s) s in
+  (* run the simplex method only if the simplifier has not decided the LP *)
+  let sc := is_okay sres && scaler_on s && negb (sol_scaled s) in
+  let s := set_lp (loaded s) (scaled s) (if sc then o_scaled o else sol_scaled s) (if sc then o_scaled o else false) s in
+  emit_if (is_okay sres) 14 (zb (sol_scaled s)) (zb (loaded s)) 0 0 s.
+
+Definition pas_body (apply : bool) (s : dstate) : res :=
+  let o := orc (frame s) in
+  evaluate o (pas_sres apply o) (objlim_en s) (pas_setup apply o s).
 
 End Driver.
 
@@ -309,12 +332,14 @@ Definition optimize (P : dparams) (orc : nat -> orec) (oscaled : bool) (fuel : n
   let s := set_counts (opt_calls s + 1) (unsc_calls s) O s in
   let s := emit 1 (zb (scaled s)) (zb (scaler_on s)) (zb (p_persist P)) (zb (has_basis s)) s in
   let s := emit 4 (opt_calls s) (unsc_calls s) (zb (loaded s)) (zb (scaled s)) s in
-  let s := if scaled s && (negb (scaler_on s) || negb (p_persist P)) then unscale_lp (emit 2 0 0 0 0 s)
-           else if p_persist P && scaler_on s && negb (scaled s) && reapply s
-                then emit 3 (zb oscaled) 0 0 0 (set_lp (loaded s) oscaled (if loaded s then oscaled else sol_scaled s) (intl s) s)
-                else s in
+  let uns := scaled s && (negb (scaler_on s) || negb (p_persist P)) in
+  let rsc := negb uns && p_persist P && scaler_on s && negb (scaled s) && reapply s in
+  let s := unscale_lp_if uns (emit_if uns 2 0 0 0 0 s) in
+  let s := set_lp (loaded s) (if rsc then oscaled else scaled s)
+                  (if rsc then (if loaded s then oscaled else sol_scaled s) else sol_scaled s) (intl s) s in
+  let s := emit_if rsc 3 (zb oscaled) 0 0 0 s in
   let s := emit 5 (zb (loaded s)) (zb (scaled s)) (zb (scaler_on s)) (zb (has_basis s)) s in
   pas P orc fuel (negb (has_basis s) && negb (p_objlim P)) s.
 
 (* enough fuel for every oracle (Driver_Proofs.driver_terminates) *)
-Definition FUEL : nat := 6.
+Definition FUEL : nat := 5.
